@@ -134,8 +134,9 @@ check("C04", "exploration",
       "Every short operation sequence (sync) and every environment script x schedule choice (async) over a machine whose actions raise, re-send "
       "(send/send_events from inside actions and from entry actions during start), suspend, arm timers/services and have eventless follow-ups; "
       "judged on reception order, exactly-once, FIFO, per-macrostep event attribution, bracket markers never separated by another reception.",
-      TRUST + " Thread preemption inside the sync drain loop is not part of this check.",
-      "exhaustive enumeration of operation sequences / stateless schedule exploration under a virtual clock", "E2-schedule-explorer + VLoop + E3-thread-scheduler",
+      TRUST + " Sync thread slice: callers and the after-timer thread as virtual threads, every line-level interleaving inside send / "
+      "send_events / _process_event_queue / _cancel_state_tasks with a bounded number of preemptions (bound in evidence).",
+      "exhaustive enumeration of operation sequences / stateless schedule exploration under a virtual clock / preemption-bounded thread interleaving exploration", "E2-schedule-explorer + VLoop + E3-thread-scheduler + E3p-preemptive",
       "DESIGN.md section 4 C04")
 check("C07", "fault_enumeration",
       "Every user-code call site of every step of the TREE(3) universal machines (two-marker lists) and of a built-in/nested-expansion machine is "
@@ -172,3 +173,11 @@ check("C19", "model_checking",
       "create_machine and the callable actually invoked is identified.",
       TRUST, "complete enumeration of API style x variant x corpus and of the discovery name alphabet, differential oracle",
       "config-corpus-enumerator + E3-thread-scheduler", "DESIGN.md section 4 C19")
+
+ENGINES.append(dict(name="E3p-preemptive", path="/verif/mc/preempt.py", serves_properties=["C04", "C14", "C15"],
+                    kind_free_text="preemption-bounded stateless exploration of the sync engine's real threads: every producer is a virtual thread (baton passing), scheduling points are blocking calls, shim-lock acquisitions and every source line of whitelisted library functions (sys.settrace); all schedules with <= k preemptions are enumerated by choice prefixes"))
+for _pid, _extra in (("C14", " Plus a sync thread slice: stop() against an after-timer thread, a caller thread and a second stop(), every line-level interleaving within the preemption bound."),
+                     ("C15", " Plus a sync thread slice: arm / re-arm / cancel of one send id against its delayed-send threads, every line-level interleaving within the preemption bound.")):
+    CHECKS[_pid]["level_claimed"]["text"] += _extra
+    CHECKS[_pid]["engine"] += " + E3p-preemptive"
+    CHECKS[_pid]["technique"] += " + preemption-bounded thread interleaving exploration"
